@@ -54,7 +54,8 @@ func VH_slice_Partition() {
 
 func VH_slice_Rotate() {
 	n := vCase("n")
-	ss := vMkInts(n)
+	// spare capacity behind the slice: Rotate must only look at the length
+	ss := vMkInts(n + vCase("spare"))[:n]
 	orig := append([]int{}, ss...)
 	k := vConcrete(vRange("k", -n-1, n+1))
 	panicked, _ := vPanics(func() { Rotate(ss, k) })
